@@ -98,6 +98,10 @@ typedef uint64_t elem_t;      /* opaque element token for templates that only mo
 #define VEC_SHIMS_FIND(V, T)                                                                                     \
 	static inline size_t V##_find(V *v, T x) { size_t k_ = 0; while (k_ < v->size && !(v->data[k_] == x)) k_++; return k_; }
 
+/* std::binary_search(v.begin(), v.end(), x): lower_bound by halving (the libstdc++ algorithm), then the equality test */
+#define VEC_SHIMS_BSEARCH(V, T)                                                                                  \
+	static inline _Bool V##_bsearch(V *v, T x) { size_t first_ = 0, len_ = v->size; while (len_ > 0) { size_t half_ = len_ >> 1; size_t mid_ = first_ + half_; if (v->data[mid_] < x) { first_ = mid_ + 1; len_ = len_ - half_ - 1; } else len_ = half_; } return first_ != v->size && !(x < v->data[first_]); }
+
 /* whole-vector copy assignment: bounded runs execute the element loop (contract runs bring their own witness-form stub) */
 #ifdef SHIM_IMPL
 #define VEC_SHIMS_ASSIGN(V, T)                                                                                   \
